@@ -47,8 +47,13 @@ package goja
 //@   loop 3 vars rangeindex int, ar []Value
 //@   loop 3 invariant -1 <= rangeindex && rangeindex < len(ar) && sameslice(a.values, old(a.values)) [range]
 //@   loop 3 invariant forall k int :: 0 <= k && k < len(a.values) - len(ar) ==> same(a.values[k], old(a.values[k])) [kept-untouched]
-// (the loop that counts the removed elements only lowers objCount)
-//@   loop 2 invariant true [count-removed]
+// (the loop that counts the removed elements only lowers objCount: by at least one if a stored element
+// is among them - the exact count needs a counting function the engine cannot state)
+//@   loop 2 vars rangeindex int, l uint32
+//@   loop 2 invariant a.objCount <= old(a.objCount) && sameslice(a.values, old(a.values)) [count-does-not-grow]
+//@   loop 2 invariant forall k int :: int(l) <= k && k <= int(l)+rangeindex && k < len(a.values) && a.values[k] != nil ==> a.objCount < old(a.objCount) [count-removed]
+//@   ensures a.objCount <= old(a.objCount) [element-count-does-not-grow]
+//@   ensures forall k int :: int(a.length) <= k && k < old(len(a.values)) && old(a.values[k]) != nil ==> a.objCount < old(a.objCount) [a-removed-element-is-taken-off-the-count]
 //@   ensures a.length >= l [not-below-request]
 //@   ensures forall k int :: 0 <= k && k < len(old(a.values)) && k >= int(a.length) ==> !old(specNonConfigurable(a.values[k])) [keeps-nonconfigurable]
 //@   ensures forall k int :: 0 <= k && k < len(a.values) ==> same(a.values[k], old(a.values[k])) [kept-elements]
